@@ -18,7 +18,7 @@ type snapModel struct {
 
 func (m *snapModel) Clone() Model { c := *m; return &c }
 func (m *snapModel) Key() []byte {
-	return []byte{byte(m.resizes), byte(m.keep), byte(m.n), byte(m.cur)}
+	return []byte{byte(m.resizes), byte(m.keep), byte(m.keep >> 8), byte(m.n), byte(m.n >> 8), byte(m.cur)}
 }
 
 type SnapDriver struct {
